@@ -1778,11 +1778,14 @@ class Sym:
             return Opq(f"attrgetter({ks})", kind="attrgetter", meta=tuple(a.value for a in args))
         if fq == "operator.itemgetter" and args:
             return Opq(f"itemgetter({ks})", alldeps, kind="itemgetter", meta=tuple(args))
+        if fq == "operator.methodcaller" and args and isinstance(args[0], Phi) and all(isinstance(a, Const) and isinstance(a.value, str) for _c, a in args[0].alts):
+            # methodcaller("should_only" if flag else "should")
+            return mk_phi([(c, self.functional_lib(fq, [a, *args[1:]], kwargs, st, ctx, e, alldeps)) for c, a in args[0].alts])
         if fq == "operator.methodcaller" and args and isinstance(args[0], Const) and isinstance(args[0].value, str):
             return Opq(f"methodcaller({ks})", alldeps, kind="methodcaller", meta=(args[0].value, tuple(args[1:]), tuple(kwargs.items())))
         if fq == "functools.partial" and args:
             return Opq(f"partial({ks})", alldeps, kind="partial", meta=(args[0], tuple(args[1:]), tuple(kwargs.items())))
-        if fq.startswith("operator.") and fq.split(".")[-1] in OPERATOR_FUNCS and not kwargs:
+        if fq.startswith("operator.") and fq.split(".")[-1] in OPERATOR_FUNCS - {"attrgetter", "itemgetter", "methodcaller"} and not kwargs:
             return self.call_value(Opq(fq, kind="libref"), list(args), {}, st, ctx, e)
         if fq == "itertools.repeat" and len(args) == 1 and not kwargs:
             return Opq(f"repeat({ks})", alldeps, kind="repeat", meta=(args[0],))
@@ -1836,7 +1839,7 @@ class Sym:
             if op == "contains" and len(args) == 2:
                 return BoolV(self.compare(args[1], ast.In(), args[0], st), alldeps)
             if op in ("attrgetter", "itemgetter", "methodcaller"):
-                r = self.functional_lib(fv.key, args, kwargs, st, ctx, e, alldeps)
+                r = self.functional_lib(fv.key, args, kwargs, st, ctx, e, alldeps)  # (never comes back here for these three)
                 if r is not None:
                     return r
         if isinstance(fv, Opq) and fv.kind == "attrgetter" and len(args) == 1 and not kwargs:
